@@ -118,7 +118,7 @@ func ruleWriterLayout(c *Ctx) {
 		ret  []string
 		gate string
 	}{
-		{"V1Frame.marshalTo", specV1Writer, []string{"8+L"}, "!(MSG.ID > 255)"},
+		{"V1Frame.marshalTo", specV1Writer, []string{"8+L"}, "(MSG.ID <= 255)"},
 		{"V2Frame.marshalTo", specV2Writer, []string{"12+L", "25+L"}, ""},
 	} {
 		fn := c.Fn("pkg/frame", v.fn)
